@@ -74,13 +74,13 @@ theorem hfind_addHugepage (l : List Oci.HugepageLimit) (h : Api.HugepageLimit) (
     unfold addHugepage
     by_cases hx : x.pageSize = h.pageSize
     · by_cases hk : h.pageSize = k
-      · simp [hx, hk, hfind, List.find?_cons]
+      · simp [hx, hk, hfind]
       · have hxk : ¬ x.pageSize = k := by rw [hx]; exact hk
-        simp [hx, hk, hfind, List.find?_cons]
+        simp [hx, hk, hfind]
     · simp only [hx, if_false]
       by_cases hxk : x.pageSize = k
       · have hk : ¬ h.pageSize = k := by intro hk; exact hx (hxk.trans hk.symm)
-        simp [hfind, List.find?_cons, hxk, hk]
+        simp [hfind, hxk, hk]
       · have hb : (x.pageSize == k) = false := by simpa using hxk
         unfold hfind at ih ⊢
         simp only [List.find?_cons, hb]
